@@ -21,7 +21,7 @@ import progs  # noqa: E402
 import verif_sched  # noqa: E402
 import verif_side  # noqa: E402
 
-CTXV = {"none": None, "k1": {"k": 1}, "k2": {"k": 2}}
+CTXV = {"none": None, "k1": {"k": 1}, "k2": {"k": None}}   # k2 differs from no context only by a key whose value is None
 _counter = [0]
 
 
@@ -30,7 +30,7 @@ def ctx_id(d):
         return "none"
     if d == {"k": 1}:
         return "k1"
-    if d == {"k": 2}:
+    if d == {"k": None}:
         return "k2"
     return "other:" + json.dumps(d, sort_keys=True)
 
